@@ -690,6 +690,11 @@ func normParas(ps []control.Paragraph, norm func(string) string) []control.Parag
 
 // stableLaw: no blank line inside a written paragraph; read-write-read is the identity
 // (values up to one trailing newline); further cycles change neither paragraphs nor bytes.
+// carrier: a struct with nothing but an embedded Paragraph
+type carrier struct {
+	control.Paragraph
+}
+
 func stableLaw(ps []control.Paragraph, norm func(string) string) string {
 	ps = normParas(ps, norm)
 	for i := range ps {
@@ -697,6 +702,20 @@ func stableLaw(ps []control.Paragraph, norm func(string) string) string {
 		ps[i].WriteTo(&buf)
 		if hasBlankLine(buf.String()) {
 			return fmt.Sprintf("FAIL paragraph %d is written with a blank line: %q", i, buf.String())
+		}
+	}
+	// the other ways of writing a paragraph - Marshal and an Encoder, given a struct that embeds
+	// it and has nothing of its own - write what WriteTo writes
+	for i := range ps {
+		var direct, viaMarshal, viaEncoder bytes.Buffer
+		ps[i].WriteTo(&direct)
+		if err := control.Marshal(&viaMarshal, carrier{ps[i]}); err != nil || viaMarshal.String() != direct.String() {
+			return fmt.Sprintf("FAIL paragraph %d: WriteTo writes %q, Marshal of a struct embedding it %q (%v)", i, direct.String(), viaMarshal.String(), err)
+		}
+		if enc, err := control.NewEncoder(&viaEncoder); err == nil {
+			if err := enc.Encode(&carrier{ps[i]}); err != nil || viaEncoder.String() != direct.String() {
+				return fmt.Sprintf("FAIL paragraph %d: WriteTo writes %q, an Encoder given a struct embedding it %q (%v)", i, direct.String(), viaEncoder.String(), err)
+			}
 		}
 	}
 	cur, text := ps, writeParas(ps)
